@@ -3,7 +3,8 @@
 # Writes seeded/<id>/last_run.txt (exit code + the VIOLATION / UNDECIDED / OK lines).
 cd /verif || exit 2
 [ -z "$(git -C /repo status --porcelain)" ] || { echo "/repo not clean"; exit 2; }
-for d in seeded/*/; do
+# optional arguments: seed ids to run (default: all)
+for d in $(if [ $# -gt 0 ]; then for a in "$@"; do echo seeded/$a/; done; else ls -d seeded/*/; fi); do
   id=$(basename $d); prop=${id%-*}
   git -C /repo apply "$PWD/$d/patch.diff" || { echo "$id: patch does not apply" | tee $d/last_run.txt; continue; }
   bin/check $prop --tier quick --no-evidence > /tmp/seed_sweep.$$ 2>&1; rc=$?
